@@ -43,6 +43,9 @@ def sym_adt_hook(ex, tid, an, name, depth):
 def field_of(ex, container, i):
     if isinstance(container, BoxV) and i == 0:
         return container
+    if isinstance(container, BorrowV):
+        # cell::Ref { value: NonNull<T>, borrow: BorrowRef } / RefMut: the value pointer is the borrowed cell
+        return Ref(container.cell) if i == 0 else Opaque('borrow-flag')
     return NotImplemented
 
 
@@ -61,6 +64,15 @@ def decode_adt_hook(ex, by, off, tid, ptrs):
         return StringV(())
     if an in ('std::vec::Vec', 'alloc::vec::Vec'):
         return VecV([], t['adt']['targs'][0])
+    # a constant BTreeMap / BTreeSet can only be the empty one (BTreeMap::new() is the only const constructor)
+    if an.endswith('::BTreeMap') or an.endswith('::BTreeSet'):
+        return BTreeMapV()
+    if an.endswith('cell::RefCell'):
+        flds = t['adt']['variants'][0]['fields']
+        offs = t['layout']['fields']['Arbitrary']['offsets']
+        i = [fl['name'] for fl in flds].index('value')
+        inner = ex.decode(by, off + offs[i]['num_bits'] // 8, t['adt']['targs'][0], ptrs)
+        return mk_refcell(ex, tid, inner)
     return NotImplemented
 
 
@@ -279,6 +291,43 @@ def m_panic(ex, n, a, f):
         elif isinstance(x, FmtArgs):
             msg += ': ' + x.describe()
     raise Panic(msg)
+
+
+@model(r'^std::thread::LocalKey::<.*>::(try_with|with)::<')
+def m_localkey_with(ex, n, a, f):
+    """thread_local!: the key's accessor (real code: lazy / eager storage over a #[thread_local] static, modelled as a plain
+    static of the single modelled thread) yields the slot, the closure runs on it"""
+    key = ex.deref(a[0])
+    while isinstance(key, Ref):
+        key = ex.deref(key)
+    inner = ex.force(key.fields[0]) if isinstance(key, Adt) else key
+    if not isinstance(inner, FnPtrV):
+        raise Unsupported(f"LocalKey accessor {inner!r}"[:120])
+    fi = ex.p.inst[inner.inst]
+    opt_ty = fi['locals'][fi['arg_count']]
+    k = ex.p.kind(opt_ty)
+    if k[0] == 'tuple':          # FnOnce::call_once shim of a capture-less closure: (self, (arg,))
+        slot = ex.call_value(inner, [Tup([none(ex, k[1][0])])])
+    else:
+        slot = ex.call_value(inner, [none(ex, opt_ty)])
+    if not isinstance(slot, Ref):
+        raise Unsupported(f"LocalKey accessor returned {slot!r}"[:120])
+    # the accessor hands out UnsafeCell::get() of the storage slot: step through the (transparent) UnsafeCell
+    tgt = ex.load_path(slot.cell, slot.path)
+    while isinstance(tgt, Adt) and ex.p.ty(tgt.ty)['adt']['name'].endswith('cell::UnsafeCell'):
+        slot = Ref(slot.cell, slot.path + (('f', 0),))
+        tgt = tgt.fields[0]
+    r = ex.call_value(a[1], [slot])
+    if '::try_with::<' in n:
+        rt = ret_ty(f)
+        return Adt(rt, ex.p.variant_index(rt, 'Ok'), [r])
+    return r
+
+
+@model(r'^std::sys::thread_local::destructors::(\w+::)*register$', r'^std::sys::thread_local::guard::(\w+::)*enable$')
+def m_tls_register_dtor(ex, n, a, f):
+    """registration of a thread-local destructor: thread exit is outside the model"""
+    return UNIT
 
 
 # --------------------------------------------------------------------------- hints / mem
@@ -520,6 +569,38 @@ def m_vec_truncate(ex, n, a, f):
     return UNIT
 
 
+@model(r'^(core|std)::slice::<impl \[.*\]>::reverse$')
+def m_slice_reverse(ex, n, a, f):
+    cells = as_cells(ex, a[0])
+    vals = [c.v for c in cells][::-1]
+    for c, v in zip(cells, vals):
+        c.v = v
+    return UNIT
+
+
+@model(r'^std::vec::Vec::<.*>::resize$')
+def m_vec_resize(ex, n, a, f):
+    v = ex.deref(a[0])
+    k = a[1]
+    if not isinstance(k, int):
+        raise Unsupported('Vec::resize with a symbolic length')
+    if k <= len(v.cells):
+        del v.cells[k:]
+    else:
+        for _ in range(k - len(v.cells)):
+            v.cells.append(Cell(deep(a[2])))
+    return UNIT
+
+
+@model(r'^(core|std)::slice::<impl \[.*\]>::chunks_mut$')
+def m_slice_chunks_mut(ex, n, a, f):
+    cells = as_cells(ex, a[0])
+    k = a[1]
+    if not isinstance(k, int) or k <= 0:
+        raise Unsupported('chunks_mut with a symbolic or zero chunk size')
+    return IterV([Cell(SliceRef(cells[i:i + k])) for i in range(0, len(cells), k)], by_value=True)
+
+
 @model(r'^std::vec::Vec::<.*>::append$')
 def m_vec_append(ex, n, a, f):
     v = ex.deref(a[0])
@@ -626,7 +707,7 @@ def m_slice_contains(ex, n, a, f):
 
 
 # ---- generic iterator methods over IterV (slice::Iter, vec::IntoIter)
-ITER_PAT = r'^<(std::slice::Iter(Mut)?<.*>|std::vec::IntoIter<.*>|std::array::IntoIter<.*>|std::collections::btree_(map|set)::(Iter|IterMut|IntoIter|Keys|Values|ValuesMut|IntoKeys|IntoValues)<.*>|std::vec::Drain<.*>) as std::iter::(Iterator|DoubleEndedIterator|ExactSizeIterator)>::'
+ITER_PAT = r'^<(std::slice::Iter(Mut)?<.*>|std::vec::IntoIter<.*>|std::array::IntoIter<.*>|std::collections::btree_(map|set)::(Iter|IterMut|IntoIter|Keys|Values|ValuesMut|IntoKeys|IntoValues)<.*>|std::vec::Drain<.*>|std::slice::ChunksMut<.*>) as std::iter::(Iterator|DoubleEndedIterator|ExactSizeIterator)>::'
 
 
 @model(ITER_PAT + r'next$')
